@@ -18,7 +18,7 @@ RULE = (
     "runner constants (no sampled argument at all); a function that is "
     "undefined (NaN in every output) on every second or third setting; "
     "runner constants, "
-    "engine pickle / csv, a FRESH Sampler object on the same file between "
+    "engine pickle / csv, file names with a compression suffix (.gz / .bz2), a FRESH Sampler object on the same file between "
     "any two runs, and a second long-lived (rival) Sampler taking turns with "
     "the first; numpy.random seeded from the case.  Oracle after each run: "
     "len(full_df) grew by exactly n; the earlier rows are unchanged "
@@ -93,8 +93,10 @@ def run_case(case):
     b_callable = case["b_callable"] and not fixed
     sessions = crop_runs = 0
     with core.scratch("xv-c15-") as root:
+        # (pandas compresses / decompresses according to the suffix)
         data_name = os.path.join(root, "samples." +
-                                 ("csv" if engine == "csv" else "pkl"))
+                                 ("csv" if engine == "csv" else "pkl") +
+                                 (case.get("compress") or ""))
 
         def new_sampler():
             fn = labelled.make_fn(spec)
@@ -287,6 +289,8 @@ def strategy(draw):
             "constants": draw(st.sampled_from([{}, {"p": 3}, {"q": "u"}])),
             "engine": draw(st.sampled_from(["pickle", "csv"])),
             "nan_mod": draw(st.sampled_from([None, None, 2, 3])),
+            "compress": draw(st.sampled_from([None, None, None, ".gz",
+                                              ".bz2"])),
             "fixed": draw(st.sampled_from([None, None, None, None, "none",
                                            "dict", "tuple"])),
             "np_seed": draw(st.integers(0, 2**31)), "ops": ops}
